@@ -3,6 +3,7 @@ package vegeta
 import (
 	"fmt"
 	"math"
+	"math/bits"
 	"time"
 )
 
@@ -56,19 +57,32 @@ func (cp ConstantPacer) Pace(elapsed time.Duration, hits uint64) (time.Duration,
 		return 0, true
 	}
 
-	expectedHits := uint64(cp.Freq) * uint64(elapsed/cp.Per)
-	if hits < expectedHits {
+	// The next hit (number hits+1) is due at ceil((hits+1) * Per / Freq) after the
+	// attack started. The product is computed in 128 bits so that neither a
+	// frequency larger than the time unit in nanoseconds nor large hit counts can
+	// truncate the interval to zero, accumulate rounding drift or wrap around.
+	if hits == math.MaxUint64 {
+		return 0, true
+	}
+	hi, lo := bits.Mul64(hits+1, uint64(cp.Per))
+	lo, carry := bits.Add64(lo, uint64(cp.Freq)-1, 0)
+	hi += carry
+	if hi >= uint64(cp.Freq) {
+		// We would overflow the deadline if we continued, so stop the attack.
+		return 0, true
+	}
+	due, _ := bits.Div64(hi, lo, uint64(cp.Freq))
+	if due > math.MaxInt64 {
+		return 0, true
+	}
+	if elapsed >= time.Duration(due) {
 		// Running behind, send next hit immediately.
 		return 0, false
 	}
-	interval := uint64(cp.Per.Nanoseconds() / int64(cp.Freq))
-	if math.MaxInt64/interval < hits {
-		// We would overflow delta if we continued, so stop the attack.
-		return 0, true
+	if elapsed < 0 {
+		elapsed = 0
 	}
-	delta := time.Duration((hits + 1) * interval)
-	// Zero or negative durations cause time.Sleep to return immediately.
-	return delta - elapsed, false
+	return time.Duration(due) - elapsed, false
 }
 
 // Rate returns a ConstantPacer's instantaneous hit rate (i.e. requests per second)
